@@ -18,6 +18,7 @@ type Config struct {
 	ScriptTopo   bool   `json:"scriptTopo"`   // CLUSTER NODES replies are scripted (C14)
 	AuthIPDir    string `json:"authIpDir"`    // directory with authip.yaml watched by the real watcher ("" = none)
 	RawLog       bool   `json:"rawLog"`       // include raw bytes (hex) in recv/got events
+	SmallBuf     bool   `json:"smallBuf"`     // 8 KB socket buffers everywhere (back-pressure scenarios)
 	ExtraNodes   int    `json:"extraNodes"`   // additional listening nodes x1.. not in the initial topology
 }
 
